@@ -899,11 +899,21 @@ spif_dlinked_list_map_remove(spif_dlinked_list_t self, spif_obj_t item)
     } else if (SPIF_CMP_IS_EQUAL(SPIF_OBJ_COMP(self->head->data, item))) {
         tmp = self->head;
         self->head = self->head->next;
+        if (self->head) {
+            self->head->prev = (spif_dlinked_list_item_t) NULL;
+        } else {
+            self->tail = (spif_dlinked_list_item_t) NULL;
+        }
     } else {
         for (current = self->head; current->next && !SPIF_CMP_IS_EQUAL(SPIF_OBJ_COMP(current->next->data, item)); current = current->next);
         if (current->next) {
             tmp = current->next;
             current->next = current->next->next;
+            if (current->next) {
+                current->next->prev = current;
+            } else {
+                self->tail = current;
+            }
         } else {
             return (spif_obj_t) NULL;
         }
